@@ -218,7 +218,7 @@ func genZones(rng *mrand.Rand, i int, lists [][]byte, meta map[string]recMeta) [
 		for k, name := range names {
 			v, cl := genValue(rng, lists, map[bool]int{true: k, false: -1}[k < 4])
 			rec := cfapi.Record{ID: hexID(rng), Name: name, Type: "HTTPS", TTL: []int{1, 300, 3600}[rng.IntN(3)],
-				Data: &cfapi.Data{Priority: 1 + rng.IntN(3), Target: []string{".", "svc." + z.Name + "."}[rng.IntN(2)], Value: v}}
+				Data: &cfapi.Data{Priority: []int{1 + rng.IntN(3), 1 + rng.IntN(3), 1 + rng.IntN(3), 32767, 32768, 65535, 1 + rng.IntN(65535)}[rng.IntN(7)], Target: []string{".", "svc." + z.Name + "."}[rng.IntN(2)], Value: v}}
 			if rng.IntN(4) == 0 {
 				rec.Comment = "managed elsewhere"
 			}
@@ -558,7 +558,7 @@ func runHistory(r *mon.Run, vc *vcoll, ctr *counters, i int, rng *mrand.Rand) {
 		if rng.IntN(10) < 4 {
 			nf := 1 + rng.IntN(2)
 			for f := 0; f < nf; f++ {
-				mode := []string{"403", "envelope"}[rng.IntN(2)]
+				mode := []string{"403", "envelope", "envelope-no-errors"}[rng.IntN(3)]
 				left := 1
 				if rng.IntN(4) == 0 {
 					left = -1
